@@ -15,6 +15,7 @@ Tol6 == 20         \* tolerance on weight totals (units of 1e-6)
 NNZ(data)    == Cardinality({k \in 1..Len(data) : data[k] # 0})
 At(a, s)     == a.data[Lin(a.shape, s) + 1]
 Abs(x)       == IF x < 0 THEN 0 - x ELSE x
+CeilDiv(x, y) == (x + y - 1) \div y
 SumW(w, lo, hi) == SumSeq([k \in 1..(hi - lo + 1) |-> w[lo + k - 1]])
 
 \* a: [kind, shape, data, nz_req, z_req]   (uniform: nz_req = number of samples, z_req = 0)
@@ -23,10 +24,18 @@ SampleWhy(a, r) ==
   LET n == Len(r.subs)  total == Prod(a.shape)  nnz == NNZ(a.data) IN
   IF r.st # "ok" THEN
      \* a clean refusal is allowed only when the request cannot be served at all
-     IF a.kind # "uniform" /\ ((a.nz_req > 0 /\ nnz = 0) \/ (a.z_req > 0 /\ nnz = total)) THEN "ok" ELSE r.st
+     IF a.kind # "uniform" /\ ((a.nz_req > 0 /\ nnz = 0) \/ (a.z_req > 0 /\ nnz = total)) THEN "ok"
+     \* the zero sampler without replacement documents that it gives up when the request is large against the supply
+     ELSE IF a.kind = "zeros" /\ ~a.repl /\ (a.z_req > total - nnz \/ CeilDiv(a.z_req * total, total - nnz) >= total) THEN "ok"
+     ELSE r.st
   ELSE IF Len(r.vals) # n THEN "one-value-per-sample"
   ELSE IF Len(r.w6) # n THEN "one-weight-per-sample"
   ELSE IF \E j \in 1..n : ~InShape(a.shape, r.subs[j]) THEN "subscript-outside-the-tensor"
+  ELSE IF a.kind = "zeros" THEN      \* the bare zero sampler: subscripts only (a.repl: with replacement)
+       IF n > a.z_req THEN "more-zero-samples-than-requested"
+       ELSE IF \E j \in 1..n : At(a, r.subs[j]) # 0 THEN "zero-draw-is-a-stored-nonzero"
+       ELSE IF ~a.repl /\ \E i, j \in 1..n : i < j /\ r.subs[i] = r.subs[j] THEN "repeated-draw-without-replacement"
+       ELSE "ok"
   ELSE IF a.kind = "uniform" THEN
        IF n # a.nz_req THEN "sample-count"
        ELSE IF \E j \in 1..n : r.vals[j] # At(a, r.subs[j]) THEN "value-differs-from-data"
